@@ -286,10 +286,18 @@ def run_history(case, res):
                 return ticks[n]
 
             exp = m.render(x, pk)
+            rid = "render-%d-%d" % (step, i)
+            if backend == "rec":
+                # calls made outside any render (invalidate_*, set, get) have no rendering context to pass
+                for op, cid, key, kw in Rec.log:
+                    if op != "get_or_create" and "context" in kw:
+                        res.violate("context-passed-outside-render", "%s: backend %s(%r) received a context (%r) although no render was in progress" % (what, op, key, kw["context"]), replay_case=rc)
+                        break
+                del Rec.log[:]
             qexp = qmodels[i].render(x, pk) if punct else None
             nlog = len(Rec.log)
             try:
-                out = t.render_unicode(tick=tick, x=x, pk=pk)
+                out = t.render_unicode(tick=tick, x=x, pk=pk, rid=rid)
             except Exception as e:
                 res.violate("render-raises", "%s: render raised %s: %s\n%s" % (what, type(e).__name__, e, t.source), replay_case=rc)
                 return
@@ -316,7 +324,7 @@ def run_history(case, res):
                 )
                 return
             if backend == "rec":
-                check_log(res, spec, t, Rec.log[nlog:], what, rc, m)
+                check_log(res, spec, t, Rec.log[nlog:], what, rc, m, rid)
         elif k < 0.63:
             t.cache.invalidate_body()
             m.store.pop("render_body", None)
@@ -371,7 +379,7 @@ def run_history(case, res):
 CALLABLE_SECTION = {"render_body": "page", "render_d0": "d0", "render_d1": "d1", "inner": "inner", "render_b0": "b0"}
 
 
-def check_log(res, spec, t, entries, what, rc, m):
+def check_log(res, spec, t, entries, what, rc, m, rid=None):
     for op, cid, key, kw in entries:
         res.count("backend_calls_logged")
         if op != "get_or_create" or cid != t.cache.id:
@@ -379,6 +387,8 @@ def check_log(res, spec, t, entries, what, rc, m):
         ctx = kw.pop("context", None)
         if Rec.pass_context and ctx is None:
             res.violate("context-not-passed", "%s: backend asked for the context but get_or_create(%r) got none" % (what, key), replay_case=rc)
+        if Rec.pass_context and ctx is not None and rid is not None and ctx.get("rid") != rid:
+            res.violate("stale-context-passed", "%s: get_or_create(%r) was handed the context of render %r, the current render is %r" % (what, key, ctx.get("rid"), rid), replay_case=rc)
         if not Rec.pass_context and ctx is not None:
             res.violate("context-passed-unasked", "%s: context passed although pass_context is False" % what, replay_case=rc)
         # which section does this key belong to?
